@@ -419,6 +419,16 @@ def build_graph(ctx, source_kwargs):
                 # the idiom source.sink(other.emit): a consumer that pushes into another entry point
                 target = N[n['target']]
                 f = ctx.sync_fn(nid, lambda x, _t=target: _t.emit(x), kind='sink')
+            elif kind == 'sync' and n.get('attach_on_first'):
+                # lazy wiring: on its first element this consumer attaches one more branch to its own upstream,
+                # i.e. while that upstream is in the middle of handing the element to its branches
+                def lazy(x, _u=ups[0], _st=[False]):
+                    if not _st[0]:
+                        _st[0] = True
+                        ctx.keep.append(_u.sink(lambda y: None))
+                        rec.rec('attached', nid)
+                rec = ctx.rec
+                f = ctx.sync_fn(nid, lazy, kind='sink')
             elif kind == 'sync':
                 f = ctx.sync_fn(nid, lambda x: None, kind='sink')
             else:
